@@ -157,7 +157,7 @@ func TestC09(t *testing.T) {
 					v.SetOuterAlg(outer.Clone())
 					ref := v.DER()
 					old := v.Signature().Body()
-					for _, how := range []string{"all-zero", "all-one", "counting"} {
+					for _, how := range []string{"all-zero", "all-one", "counting", "unused-bits-3", "unused-bits-7"} {
 						nb := append([]byte{}, old...)
 						for x := 1; x < len(nb); x++ {
 							switch how {
@@ -168,6 +168,12 @@ func TestC09(t *testing.T) {
 							default:
 								nb[x] = byte(x)
 							}
+						}
+						// a BIT STRING of the same length whose last octet is only partly used (valid DER: the unused bits are zero)
+						if how == "unused-bits-3" {
+							nb[0], nb[len(nb)-1] = 3, nb[len(nb)-1]&^7
+						} else if how == "unused-bits-7" {
+							nb[0], nb[len(nb)-1] = 7, 0x80
 						}
 						v2, _ := gen.ViewCert(ref)
 						v2.Root.Children[2] = dt.Prim(0, 3, nb)
@@ -226,7 +232,15 @@ func TestC09(t *testing.T) {
 			}
 			copy(nb[off:], mat)
 		}
-		switch rapid.IntRange(0, 9).Draw(rt, "how") {
+		switch rapid.IntRange(0, 10).Draw(rt, "how") {
+		case 10:
+			// same number of octets, but the last one only partly used
+			u := rapid.IntRange(1, 7).Draw(rt, "unused")
+			r := rapid.SliceOfN(rapid.Byte(), len(old)-1, len(old)-1).Draw(rt, "rnd")
+			copy(nb[1:], r)
+			nb[0] = byte(u)
+			nb[len(nb)-1] &^= byte(1<<uint(u) - 1)
+			how = fmt.Sprintf("unused-bits-%d", u)
 		case 7:
 			// the signature bits spell a piece of the certificate's own tbsCertificate
 			tbs := v.TBS.Encode()
